@@ -637,3 +637,126 @@ def c10(ctx):
         live = [c for c in cases if c["id"] % 4 == 0]
         mc_vm(ctx, "liveness", cap_texts(live, hi_cap=3), liveness=True, invariants=("StepBound", "NoStuck"),
               what="<>(phase = done) under WF(Next) for every behaviour (no non-progress cycle)")
+
+
+# ------------------------------------------------------------------- C07
+RULES["C07"] = ("(i) all seek/read histories of the window machine spec/Reader.tla for B=4, N in {0,1,3,4,5,7,8,9,12,14}; "
+                "(ii) recorded engine histories (hook H2) on generated files of sizes 0,1,2049,4096,4097,8193 (quick; thorough "
+                "adds 2047..2048, 4095, 6143..6145, 8191..8192, 12289, 20000) for programs that read forward, step back one "
+                "byte for anchors, backtrack far, and splice -- one case per recorded event, non-trivial = the event returns "
+                "bytes or moves the window; (iii) the C01 scope run through RunFiles and Run and compared")
+PATTERN = [ord(ch) for ch in "ab c\nxy  z9\n"]
+
+
+def reader_plan(tier):
+    sizes = [0, 1, 2049, 4096, 4097, 8193]
+    if tier != "quick":
+        sizes += [2, 2047, 2048, 4095, 6143, 6144, 6145, 8191, 8192, 12289, 20000]
+    runs = [{"size": s, "src": "find all 'q'", "mode": "NOTHING"} for s in sizes]
+    for s in ([6145] if tier == "quick" else [4097, 6145, 8193, 12289]):
+        runs.append({"size": s, "src": "find all 'c' line end", "mode": "NOTHING"})
+        runs.append({"size": s, "src": "find all file start 'ab' between 0 and 2500 any 'QQ'", "mode": "NOTHING"})
+        runs.append({"size": s, "src": "find all word start at least 1 letter word end", "mode": "NOTHING"})
+    for s in ([9000] if tier == "quick" else [4096, 9000, 12289]):
+        runs.append({"size": s, "src": "replace all 'z9' with 'long-replacement'", "mode": "NEW"})
+        runs.append({"size": s, "src": "replace all 'ab c' with ''", "mode": "NEW"})
+    return {"pattern": PATTERN, "runs": runs}
+
+
+def run_reader_trace_tlc(ctx, d, strict):
+    cfg = ("SPECIFICATION TraceSpec\nCONSTANT TraceFile = \"T.ndjson\"\nCONSTANT Strict = %s\nCONSTRAINT HighWater\n"
+           "INVARIANT WindowOK\nPOSTCONDITION TraceAccepted\nCHECK_DEADLOCK FALSE\n" % ("TRUE" if strict else "FALSE"))
+    out, st = vlib.run_tlc(d, "ReaderTrace", cfg, workers=1, timeout=1200, heap="8g")
+    rejected = "TRACE-REJECTED" in out or "Invariant WindowOK is violated" in out
+    if not rejected and not st["ok"]:
+        raise Undecided("TLC failed on spec/ReaderTrace.tla:\n" + vlib.tlc_error_excerpt(out, 40))
+    m = re.search(r'"TRACE-REJECTED at line",\s*(\d+)', out)
+    return (not rejected), st, (int(m.group(1)) if m else -1)
+
+
+@check("C07")
+def c07(ctx):
+    ctx.technique = ("window machine spec/Reader.tla model-checked (B=4, all histories) and its re-centring arithmetic proved "
+                     "inductive for B=4096 by Apalache (thorough); engine-issued seek/read histories recorded by hook H2 validated "
+                     "against spec/ReaderTrace.tla; file-vs-string replay")
+    quick = ctx.tier == "quick"
+    # (i) the design, small constants, all histories
+    from concurrent.futures import ThreadPoolExecutor
+
+    def mc(n):
+        d = ctx.scratch.sub("reader%d" % n)
+        cfg = ("SPECIFICATION Spec\nCONSTANTS N = %d\nB = 4\nH = 4\nINVARIANTS WindowOK CursorOK Covers ReadsFile NoSpin\n"
+               "CHECK_DEADLOCK FALSE\n" % n)
+        out, st = vlib.run_tlc(d, "Reader", cfg, workers=2, timeout=300, heap="1g")
+        if not st["ok"]:
+            raise Undecided("model checking of spec/Reader.tla failed for N=%d:\n%s" % (n, vlib.tlc_error_excerpt(out)))
+        return st
+    tot = {"states": 0, "distinct": 0, "wall_s": 0.0}
+    with ThreadPoolExecutor(max_workers=8) as ex:
+        for st in ex.map(mc, [0, 1, 3, 4, 5, 7, 8, 9, 12, 14]):
+            tot["states"] += st["states"]
+            tot["distinct"] += st["distinct"]
+            tot["wall_s"] = max(tot["wall_s"], st["wall_s"])
+    ctx.add_mc("Reader(B=4)", tot, "WindowOK, Covers, ReadsFile, NoSpin for all seek/read histories, N in {0,1,3,4,5,7,8,9,12,14}")
+    if not quick:
+        d = ctx.scratch.sub("apalache")
+        import shutil
+        shutil.copy(os.path.join(vlib.SPEC, "ReaderInd.tla"), d)
+        for args, name in ((["--init=Init", "--length=0"], "base"), (["--init=IndInit", "--length=1"], "step")):
+            try:
+                p = subprocess.run(["apalache-mc", "check", "--cinit=ConstInit", "--inv=IndInv"] + args + ["ReaderInd.tla"],
+                                   cwd=d, capture_output=True, text=True, timeout=600)
+            except subprocess.TimeoutExpired:
+                raise Undecided("apalache timed out")
+            ok = "EXITCODE: OK" in p.stdout
+            ctx.mc_jobs.append({"job": "Apalache:ReaderInd:" + name, "ok": ok,
+                                "what": "inductive invariant of the re-centring arithmetic, B=H=4096, N<=100000"})
+            if not ok:
+                raise Undecided("Apalache did not discharge ReaderInd (%s):\n%s" % (name, p.stdout[-1500:]))
+    # (ii) recorded histories
+    d = ctx.scratch.sub("rt")
+    with open(os.path.join(d, "plan.json"), "w") as f:
+        json.dump(reader_plan(ctx.tier), f)
+    try:
+        p = subprocess.run([ctx.get_harness(), "readertrace", "-plan", "plan.json", "-out", "T.ndjson", "-report", "rep.json"],
+                           cwd=d, capture_output=True, text=True, timeout=400)
+    except subprocess.TimeoutExpired:
+        # the plan runs in seconds on a conforming tree (in memory and on files); not returning is the violation
+        ctx.violations.append({"kind": "hang", "sig": "reader-hang", "family": "C07-reader-traces",
+                               "detail": "RunFiles did not return within 400 s on the reader plan (it takes < 10 s on a conforming tree)",
+                               "src": "", "text": None, "case": {"plan": reader_plan(ctx.tier)}})
+        return
+    if p.returncode != 0:
+        raise Undecided("reader trace recording failed: " + p.stderr[-1500:])
+    with open(os.path.join(d, "rep.json")) as f:
+        rrep = json.load(f)
+    accepted, st, line_no = run_reader_trace_tlc(ctx, d, True)
+    ctx.states += st["distinct"]
+    ctx.transitions += st["states"]
+    diag = {"events": rrep["events"], "runs": len(rrep["runs"]), "strict_accepted": accepted}
+    if not accepted:
+        ok2, st2, line2 = run_reader_trace_tlc(ctx, d, False)
+        diag["bytes_only_accepted"] = ok2
+        diag["rejected_at_line"] = line_no
+        if not ok2:
+            with open(os.path.join(d, "T.ndjson")) as f:
+                lines = f.readlines()
+            ev = json.loads(lines[line2 - 1]) if 0 < line2 <= len(lines) else {}
+            ctx.violations.append({"kind": "reader-bytes", "sig": "reader-bytes", "family": "C07-reader-traces",
+                                   "detail": "the buffered reader returned bytes that are not the file's (trace line %d: %s)" % (line2, ev),
+                                   "src": "", "text": None, "case": {"plan": reader_plan(ctx.tier), "event": ev, "line": line2}})
+    ctx.diagnostics["reader_trace_validation"] = diag
+    ctx.evaluations += rrep["events"]
+    ctx.nontrivial += sum(1 for r in rrep["runs"] if r["events"] > 0)
+    ctx.families["C07-reader-traces"] = {"events": rrep["events"], "runs": len(rrep["runs"]),
+                                         "recentres": sum(r["recentres"] for r in rrep["runs"])}
+    for r in rrep["runs"]:
+        if r.get("panic") or r.get("diff"):
+            ctx.violations.append({"kind": "filediff", "sig": "filediff", "family": "C07-big-files",
+                                   "detail": "size %d: %s %s" % (r["size"], r.get("panic", ""), r.get("diff", "")),
+                                   "src": r["src"], "text": None, "case": {"size": r["size"], "src": r["src"], "pattern": PATTERN}})
+    ctx.samples.append({"family": "C07-reader-traces", "plan_run": rrep["runs"][min(3, len(rrep["runs"]) - 1)]})
+    # (iii) file vs string on the core scope
+    cases = ctx.gen_cases("C01")
+    sel = [c for c in cases if c["id"] % (6 if quick else 2) == 0]
+    ctx.replay("C07-file-vs-string", sel, ["filediff", "panic", "spans"], mode="both")
